@@ -13,6 +13,10 @@ CLAIMED = {
   text='Coq theorems (Props/C10.v) about the model of ResourceMatcher and of selective application: None selects all, a string selects exactly the names it fully matches (executable regex matcher), a list selects the listed names, an integer selects exactly one position (negative from the end, out of range rejected), unselected resources keep descriptor and rows; plus a regenerated theorem that every ResourceMatcher call site in the processors passes the package. Correspondence: the model\'s selection vector is compared by vm_compute with what each of the 21 selector-taking call sites actually selected on generated packages/selectors; direct oracle: selected resources equal the all-selected run, unselected equal the run without the step.',
   note='Trusted: Coq kernel+vm_compute; Python re.fullmatch as the meaning of full match in the oracle (the Coq matcher is compared with it on every generated pattern); regex fragment without anchors/look-around/back-references; ast extraction of call-site arguments in gen_consts.py.',
   technique='Coq proof over executable model + generated call-site constants + vm_compute correspondence + direct oracle', ref='5/C10'),
+ 'C15': dict(
+  text='Coq theorems (Props/C15.v) about executable models of select_fields, delete_fields, rename_fields, add_field/add_computed_field and find_replace: resulting field list and row keys agree (set equality in selection order for select; list equality in original order for delete/rename/find_replace; new fields appended for add_*), untouched and renamed fields keep their values, computed values equal the operation on that row (sum/max/min characterised, constant/join/format/callable by definition). Correspondence by vm_compute against the real processors on generated tables with metacharacter/prefix field names, regex on/off, two resources; direct oracle recomputes schema and rows from the documented rules.',
+  note='Trusted: Coq kernel+vm_compute; Python re decides field-pattern matches and substitutions (tables); numeric operations modelled over integers (avg only where exactly representable); patterns without top-level alternation; rename targets not colliding with remaining names (domain guard).',
+  technique='Coq proof over executable model + vm_compute correspondence + direct oracle', ref='5/C15'),
 }
 
 NOT_YET = 'check not built yet (work in progress; will be claimed once its Coq model, theorems and correspondence check exist)'
